@@ -132,7 +132,7 @@ func obsStr(f func() (string, error)) string {
 
 func init() {
 	checkers["C17"] = checker{
-		rule: "GUIDs drawn from boundary classes (leading-zero nibbles per field, all-ff, zero, asymmetric bytes, one zero field) and uniformly; strings from empty/ASCII/BMP/non-BMP/boundary-scalar/mixed classes up to the tier's length bound; each case runs one conversion on the implementation and the extracted relation R_C17 decides it; the in-structure form is also read at the library's own encoding sites (signature list type and owner fields; the buffer a signed variable update covers, rebuilt with the model-validated wire bytes and verified by the RFC 2315 reference verifier); a case is non-trivial when its input is not the all-zero GUID / empty string, distinct by hash of (operation, arguments)",
+		rule: "GUIDs drawn from boundary classes (leading-zero nibbles per field, all-ff, zero, asymmetric bytes, one zero field) and uniformly; strings from empty/ASCII/BMP/non-BMP/boundary-scalar/mixed classes up to the tier's length bound, and of 32766..65536 code units; each case runs one conversion on the implementation and the extracted relation R_C17 decides it; the in-structure form is also read at the library's own encoding sites (signature list type and owner fields; the buffer a signed variable update covers, rebuilt with the model-validated wire bytes and verified by the RFC 2315 reference verifier); a case is non-trivial when its input is not the all-zero GUID / empty string, distinct by hash of (operation, arguments)",
 		run:  runC17,
 	}
 }
@@ -263,6 +263,15 @@ func runC17(c *Ctx) {
 		if i%97 == 0 {
 			rs, _ = genString(rng, c.Bound(3000, 20000))
 			class = "long"
+		}
+		if i < 5 {
+			// directed: lengths around 2^15 and 2^16 UTF-16 code units (ASCII, so one unit each)
+			n := []int{32766, 32767, 32768, 65535, 65536}[i]
+			rs = make([]rune, n)
+			for k := range rs {
+				rs[k] = rune('a' + rng.Intn(26))
+			}
+			class = "boundary-length"
 		}
 		nt := len(rs) > 0
 		sa := runesArg(rs)
